@@ -11,7 +11,7 @@ import numpy as np
 import pandas as pd
 
 from harness import gen
-from harness.common import drv
+from harness.common import drv, errclass
 
 PID = "C18"
 THEOREMS = ["rename_names", "rename_data_unchanged", "rename_labels", "rename_observe", "rename_valid",
@@ -182,19 +182,34 @@ def _lookup_str(clr, n):
 
 def observe_obj(clr, probes, M0, whole):
     """everything name-related a user can read from this Cooler object"""
-    cs = clr.chromsizes
-    df = clr.bins()[:]
-    ct = clr.chroms()[:]
-    out = {
-        "chromnames": [str(x) for x in clr.chromnames],
-        "chromsizes": [[str(k), int(v)] for k, v in zip(cs.index, cs.values)],
-        "chroms_table": [[str(k), int(v)] for k, v in zip(ct["name"], ct["length"])],
-        "labels": [None if pd.isna(x) else str(x) for x in df["chrom"]],
-        "starts": [int(x) for x in df["start"]],
-        "ends": [int(x) for x in df["end"]],
-        "extents": [_lookup(clr, p) for p in probes],
-        "extents_str": [_lookup_str(clr, p[0]) for p in probes if p[1] is None and p[2] is None],
-    }
+    out = {}
+
+    def put(keys, f):
+        # an exception of the implementation while reading an in-domain store is an observation, not a harness fault
+        try:
+            vals = f()
+        except Exception as e:  # noqa
+            vals = [{"raised": errclass(e)}] * len(keys)
+        out.update(zip(keys, vals))
+
+    def _sizes():
+        cs = clr.chromsizes
+        return [[str(x) for x in clr.chromnames], [[str(k), int(v)] for k, v in zip(cs.index, cs.values)]]
+
+    def _bins():
+        df = clr.bins()[:]
+        return [[None if pd.isna(x) else str(x) for x in df["chrom"]], [int(x) for x in df["start"]],
+                [int(x) for x in df["end"]]]
+
+    def _chroms():
+        ct = clr.chroms()[:]
+        return [[[str(k), int(v)] for k, v in zip(ct["name"], ct["length"])]]
+
+    put(["chromnames", "chromsizes"], _sizes)
+    put(["labels", "starts", "ends"], _bins)
+    put(["chroms_table"], _chroms)
+    out["extents"] = [_lookup(clr, p) for p in probes]
+    out["extents_str"] = [_lookup_str(clr, p[0]) for p in probes if p[1] is None and p[2] is None]
     # matrix queries by name: compared with the index-based original through the model's bin range
     sel = clr.matrix(balance=False)
     fetch = []
@@ -252,10 +267,22 @@ def run_impl(case):
                 break
             ok += 1
         for m in maps[:ok]:
-            cooler.rename_chroms(clr, dict(m))
+            try:
+                cooler.rename_chroms(clr, dict(m))
+            except Exception as e:  # noqa  in-domain renaming must succeed
+                steps.append({"raised": errclass(e)})
+                break
             same = observe_obj(clr, probes, M0, whole)
-            re = observe_obj(cooler.Cooler(work), probes, M0, whole)
-            steps.append({"same": same, "reopened": re, "raw": snap(work)})
+            try:
+                re = observe_obj(cooler.Cooler(work), probes, M0, whole)
+            except Exception as e:  # noqa
+                re = {"raised": errclass(e)}
+            try:
+                raw = snap(work)
+            except Exception as e:  # noqa
+                steps.append({"raised": "file unreadable after renaming: " + errclass(e)})
+                break
+            steps.append({"same": same, "reopened": re, "raw": raw})
         return s0, M0, probes, whole, steps
     finally:
         if os.path.exists(work):
@@ -266,6 +293,9 @@ def _ask(case, s0, probes, steps):
     fits = []
     was_enum = s0["enc"] is not None
     for st in steps:
+        if "raised" in st:
+            fits.append(True)
+            continue
         now_enum = st["raw"]["enc"] is not None
         fits.append(bool(now_enum) if was_enum else True)
         was_enum = now_enum
@@ -301,8 +331,12 @@ def _rename(case):
             raise AssertionError("L1 != L0: extent after renaming differs from the old name's extent")
         o = ms["obs"]
         mext = [_ext(j) for j in ms["extents"]]
+        if "raised" in st:
+            return {"mismatch": True, "step": k, "what": "rename_chroms raised on an in-domain map", "impl": st["raised"]}
         for which in ("same", "reopened"):
             im = st[which]
+            if "raised" in im:
+                return {"mismatch": True, "step": k, "object": which, "what": "Cooler(path) raised after renaming", "impl": im["raised"]}
             diffs = {}
             exp = {"chromnames": ms["handle_chromnames"] if which == "same" else o["chromnames"],
                    "chromsizes": ms["handle_chromsizes"] if which == "same" else o["chromsizes"],
@@ -353,6 +387,8 @@ def _layout(case):
     for k, (st, ms) in enumerate(zip(steps, m["steps"])):
         if not ms["injective"]:
             return {"stats": {"out_of_domain_duplicate_names": 1}}
+        if "raised" in st:
+            return {"mismatch": True, "step": k, "what": "rename_chroms raised on an in-domain map", "impl": st["raised"]}
         raw = st["raw"]
         longest = max(len(n) for n in ms["names"])
         if raw["name_width"] < longest:  # NamesFit on the real file
